@@ -43,6 +43,8 @@ def gen_cases(tier, seed):
         yield {"kind": "whittaker", "seed": r.randrange(1 << 30), "model": ["Langmuir", "Toth"][i % 2]}
     for i in range(30 if tier == "quick" else 2000):
         yield {"kind": "initial", "seed": r.randrange(1 << 30)}
+    for i in range(16 if tier == "quick" else 800):
+        yield {"kind": "initial_guessed", "seed": r.randrange(1 << 30)}
     for i in range(10 if tier == "quick" else 500):
         yield {"kind": "raw", "seed": r.randrange(1 << 30)}
 
@@ -302,6 +304,35 @@ def _run_initial(case, ctx):
         exp = spec["extra"][key][rows[0]]
         if res[0] != "ok" or not close(float(res[1]["initial_enthalpy"]), exp, 1e-15):
             ctx.violation("initial_enthalpy_point/value", "does not return the first measured enthalpy of the chosen branch", branch=branch, route=route, got=res[1] if res[0] != "ok" else res[1]["initial_enthalpy"], expected=exp)
+
+
+def _run_initial_guessed(case, ctx):
+    """A full cycle as a calorimeter writes it (no branch marks; the turning pressure is recorded twice: last adsorption point,
+    first desorption point): rows up to and including the first pressure maximum are adsorption, the rest desorption."""
+    import pandas
+    import pygaps
+    from pygaps.characterisation.initial_enth import initial_enthalpy_point
+    r = gen.rng(case["seed"], "ini-g")
+    na, nd = r.randint(2, 15), r.randint(1, 12)
+    up = sorted({round(r.uniform(0.01, 1.0), 5) for _ in range(na)})
+    top = up[-1]
+    tie = case["seed"] % 2 == 0
+    down = sorted({round(r.uniform(0.001, top * 0.98), 5) for _ in range(nd)}, reverse=True)
+    p = up + ([top] if tie else []) + down
+    h = [round(r.uniform(5, 60), 4) for _ in p]
+    l = [round(0.1 * (i + 1), 3) for i in range(len(p))]
+    df = pandas.DataFrame({"pressure": p, "loading": l, "enthalpy": h})
+    if case["seed"] % 3 == 0:
+        df.index = range(7, 7 + len(p))
+    iso = pygaps.PointIsotherm(isotherm_data=df, pressure_key="pressure", loading_key="loading", other_keys=["enthalpy"], material="verif-c19g", adsorbate="nitrogen", temperature=77.0, **gen.DEFAULT_UNITS)
+    first_des = len(up)
+    for branch, exp in (("ads", h[0]), ("des", h[first_des])):
+        res = _call(initial_enthalpy_point, iso, "enthalpy", branch=branch)
+        ctx.case(["initial-guessed", branch, tie, case["seed"]])
+        ctx.count("initial", "guessed-branches/%s/%s" % (branch, "turning-pressure-recorded-twice" if tie else "unique-maximum"))
+        if res[0] != "ok" or not close(float(res[1]["initial_enthalpy"]), exp, 1e-15):
+            ctx.violation("initial_enthalpy_point/value/guessed-branches", "does not return the first measured enthalpy of the chosen branch of a recorded cycle", branch=branch, tie=tie, pressures=p,
+                          got=res[1] if res[0] != "ok" else res[1]["initial_enthalpy"], expected=exp)
 
 
 def finalize(ctx):
